@@ -36,11 +36,76 @@ class _Conv(object):
         self.cache = {}
         self.hcache = {}
         self.keep = []
+        self.pos_atoms = None
+
+    def _collect_pos(self):
+        """Atoms stated positive by the assumptions themselves (x > 0, x >= c with c > 0, ...)."""
+        pos = set()
+        for a in self.assumptions:
+            todo = [a]
+            while todo:
+                x = todo.pop()
+                if z3.is_and(x):
+                    todo.extend(x.children())
+                    continue
+                if not z3.is_app(x) or x.num_args() != 2:
+                    continue
+                k = x.decl().kind()
+                l, r = x.arg(0), x.arg(1)
+                if k in (z3.Z3_OP_GT, z3.Z3_OP_GE) and (z3.is_rational_value(r) or z3.is_int_value(r)):
+                    v = r.as_fraction() if z3.is_rational_value(r) else r.as_long()
+                    if v > 0 or (v == 0 and k == z3.Z3_OP_GT):
+                        pos.add(l.get_id())
+                if k in (z3.Z3_OP_LT, z3.Z3_OP_LE) and (z3.is_rational_value(l) or z3.is_int_value(l)):
+                    v = l.as_fraction() if z3.is_rational_value(l) else l.as_long()
+                    if v > 0 or (v == 0 and k == z3.Z3_OP_LT):
+                        pos.add(r.get_id())
+        return pos
+
+    def positive(self, t, depth=0):
+        """Cheap structural proof of t > 0 (no solver): sums / products / quotients / integer powers / sqrt of positives."""
+        if self.pos_atoms is None:
+            self.pos_atoms = self._collect_pos()
+        if t.get_id() in self.pos_atoms:
+            return True
+        if depth > 40:
+            return False
+        if z3.is_rational_value(t) or z3.is_int_value(t):
+            return (t.as_fraction() if z3.is_rational_value(t) else t.as_long()) > 0
+        if not z3.is_app(t):
+            return False
+        k = t.decl().kind()
+        ch = t.children()
+        if k in (z3.Z3_OP_ADD, z3.Z3_OP_MUL, z3.Z3_OP_DIV):
+            return all(self.positive(c, depth + 1) for c in ch)
+        if k == z3.Z3_OP_TO_REAL:
+            return self.positive(ch[0], depth + 1)
+        if k == z3.Z3_OP_POWER:
+            return self.positive(ch[0], depth + 1)
+        if k == z3.Z3_OP_UNINTERPRETED and t.decl().name() in ('sqrt', 'exp') and len(ch) == 1:
+            return t.decl().name() == 'exp' or self.positive(ch[0], depth + 1)
+        if k == z3.Z3_OP_UNINTERPRETED and t.decl().name() == 'pi':
+            return True
+        return False
 
     def holds(self, cond):
         k = cond.get_id()
         if k in self.hcache:
             return self.hcache[k]
+        # structural shortcut for  t != 0  /  t >= 0  /  t > 0
+        if z3.is_app(cond):
+            kk = cond.decl().kind()
+            if kk == z3.Z3_OP_DISTINCT and cond.num_args() == 2 and (z3.is_rational_value(cond.arg(1)) or z3.is_int_value(cond.arg(1))) \
+                    and cond.arg(1).as_fraction() == 0 if z3.is_rational_value(cond.arg(1)) else False:
+                if self.positive(cond.arg(0)):
+                    self.hcache[k] = True
+                    self.keep.append(cond)
+                    return True
+            if kk in (z3.Z3_OP_GE, z3.Z3_OP_GT) and cond.num_args() == 2 and z3.is_rational_value(cond.arg(1)) and cond.arg(1).as_fraction() == 0:
+                if self.positive(cond.arg(0)):
+                    self.hcache[k] = True
+                    self.keep.append(cond)
+                    return True
         from .state import cone_of_influence
         s = z3.Solver()
         s.set('timeout', self.timeout_ms)
@@ -57,7 +122,7 @@ class _Conv(object):
         if k not in self.syms:
             pos = False
             try:
-                pos = z3.is_arith(t) and self.holds(t > 0)
+                pos = z3.is_arith(t) and self.positive(t)      # structural only: array reads etc. have no sign
             except z3.Z3Exception:
                 pos = False
             name = 's%d' % len(self.syms)
